@@ -13,7 +13,7 @@ func init() {
 	register("C01",
 		"Structural necessary conditions of C01 decided from /repo's SSA: (argv) the object enumeration is one `git rev-list` with a constant argv containing --objects, --stdin, one ordering flag and no option that adds or hides objects; (roots) the only writer of that process's stdin is the feeder, every AddRoot call is reached only under root.Walk()==true and passes that root's OID(); (dispatch) every header is dispatched on its type literal to exactly one of RegisterBlob / the tree, commit or tag list, and each list is requested and read back once per element by loops over the same list with exactly one Register call per iteration; (effects) the eight census counters receive exactly the update edges the statement demands (update-effect graph vs. frozen oracle) and object id and size handed to a Register call come from the same record; (rootset) the scanned roots are all collected references followed by one explicit root per ROOT argument; (once) record*/finalize* have single callers and double registration panics before any counter update. Not decided: that git enumerates exactly the reachable set, the numeric equality itself.",
 		[]string{"git rev-list --objects --stdin lists each object reachable from the given roots exactly once", "field-based heap model: all instances of a struct type share one node per field", "go/ssa models the source faithfully"},
-		ruleC01Argv, ruleC01Roots, ruleC01Dispatch, ruleC01Effects, ruleC01Rootset, ruleC01Once)
+		ruleC01Argv, ruleC01Roots, ruleC01Dispatch, ruleC01Effects, ruleC01Rootset, ruleC01Once, func(c *Ctx) { pendingWidth(c, "C01.once") }, func(c *Ctx) { c.checkCollect("C01.rootset") })
 }
 
 var revListAllowed = map[string]string{
@@ -140,6 +140,14 @@ func ruleC01Roots(c *Ctx) {
 				continue // ctx.Done()
 			}
 			f, _ := c.chanIdent(ch)
+			if f == nil && reqStage.Helper != nil {
+				// the stage is built by a shared helper: identify the channel at this pipeline's call of it
+				if p, ok := c.chanParam(ch); ok {
+					if idx := paramIndex(p); idx < len(reqStage.Helper.Call.Args) {
+						f, _ = c.chanIdent(reqStage.Helper.Call.Args[idx])
+					}
+				}
+			}
 			if f != nil {
 				chField = f
 				nRecv++
@@ -623,6 +631,40 @@ func ruleC01Rootset(c *Ctx) {
 			}
 		}
 		walk(call.Call.Args[ridx])
+		// the roots may be assembled by a helper: continue in its results
+		for pass := 0; pass < 3; pass++ {
+			var next []ssa.Value
+			for _, b := range bases {
+				var hc *ssa.Call
+				idx := 0
+				switch x := b.(type) {
+				case *ssa.Extract:
+					hc, _ = x.Tuple.(*ssa.Call)
+					idx = x.Index
+				case *ssa.Call:
+					hc = x
+				}
+				if hc != nil && hc.Call.StaticCallee() != nil && c.inRuleScope(hc.Call.StaticCallee()) && len(hc.Call.StaticCallee().Blocks) > 0 && !isBuiltin(&hc.Call, "append") {
+					cal := hc.Call.StaticCallee()
+					f = cal
+					name = fnName(cal)
+					for _, ret := range returnsOf(cal) {
+						for _, rv := range c.resultValues(ret, idx) {
+							if !isNilConst(rv) {
+								old := bases
+								bases = nil
+								walk(rv)
+								next = append(next, bases...)
+								bases = old
+							}
+						}
+					}
+					continue
+				}
+				next = append(next, b)
+			}
+			bases = next
+		}
 		for _, b := range bases {
 			switch b.(type) {
 			case *ssa.MakeSlice:
@@ -637,7 +679,6 @@ func ruleC01Rootset(c *Ctx) {
 			}
 		}
 		sawRef, sawExplicit := false, false
-		loops := loopsOf(f)
 		for _, ap := range appends {
 			elems := c.sliceElemValues(ap.Call.Args[1])
 			if len(elems) != 1 {
@@ -649,7 +690,7 @@ func ruleC01Rootset(c *Ctx) {
 				el = mi.X
 			}
 			el = c.resolve(el)
-			l := innermostLoop(loops, ap.Block())
+			l := innermostLoop(loopsOf(ap.Parent()), ap.Block())
 			switch x := el.(type) {
 			case *ssa.UnOp:
 				// element of CollectReferences' result
@@ -732,7 +773,22 @@ func (c *Ctx) isElemOfFlagArgs(v ssa.Value) bool {
 	if !ok {
 		return false
 	}
-	call, ok := c.resolve(ia.X).(*ssa.Call)
+	src := c.resolve(ia.X)
+	if p, ok := src.(*ssa.Parameter); ok {
+		idx := paramIndex(p)
+		n := 0
+		for _, ci := range c.Callers[p.Parent()] {
+			if idx < len(ci.Common().Args) {
+				call, ok := c.resolve(ci.Common().Args[idx]).(*ssa.Call)
+				if !ok || calleeQ(&call.Call) != "(*github.com/spf13/pflag.FlagSet).Args" {
+					return false
+				}
+				n++
+			}
+		}
+		return n > 0
+	}
+	call, ok := src.(*ssa.Call)
 	return ok && calleeQ(&call.Call) == "(*github.com/spf13/pflag.FlagSet).Args"
 }
 
@@ -861,4 +917,22 @@ func (c *Ctx) checkEntryCountOnce(rule string) {
 	} else {
 		c.violate(rule, "entry-count-once", el.Call.Pos(), fnName(el.Fn), fmt.Sprintf("the per-tree entry counter is incremented between %d and %d times per tree entry (must be exactly once in every entry-kind arm and in both delivery orders of a subtree)", r.Min, r.Max))
 	}
+}
+
+// chanParam: the channel value is (a captured copy of) a parameter.
+func (c *Ctx) chanParam(v ssa.Value) (*ssa.Parameter, bool) {
+	v = c.resolve(v)
+	if p, ok := v.(*ssa.Parameter); ok {
+		return p, true
+	}
+	if u, ok := v.(*ssa.UnOp); ok && u.Op == token.MUL {
+		if cell := c.cellOf(u.X); cell != nil {
+			if st := c.cellStores(cell); len(st) == 1 {
+				if p, ok := st[0].Val.(*ssa.Parameter); ok {
+					return p, true
+				}
+			}
+		}
+	}
+	return nil, false
 }
